@@ -523,6 +523,7 @@ func checkC16(c *Ctx) {
 	checkRound4Misc(c, "C16")
 	checkC16ArgDropped(c)
 	checkC16RingTop(c)
+	checkC16KillRepositions(c)
 	checkDeleteCharStays(c, "C16.delete-char-in-line")
 	checkInsertCopies(c, "C16.insert-copies")
 }
